@@ -13,13 +13,13 @@ import (
 // of atom meaning used by the reference evaluator; it is confirmed against the
 // real validator by the table self-test (one single-atom profile per row and witness).
 type AtomRow struct {
-	Kind string // constraint key in the profile language
-	Arg  *Y     // YAML argument
-	Sat  []Lit  // per-value kinds: values that satisfy
-	Viol []Lit  // per-value kinds: values that violate
-	N    int    // count kinds: the argument
-	Set  []string // set kinds: the argument list (as strings)
-	Class string // "value", "count", "set", "cmp"
+	Kind  string   // constraint key in the profile language
+	Arg   *Y       // YAML argument
+	Sat   []Lit    // per-value kinds: values that satisfy
+	Viol  []Lit    // per-value kinds: values that violate
+	N     int      // count kinds: the argument
+	Set   []string // set kinds: the argument list (as strings)
+	Class string   // "value", "count", "set", "cmp"
 }
 
 func strs(ss ...string) []Lit {
@@ -86,10 +86,10 @@ const (
 // atom owns its property (and Prop2 for comparisons), so atoms are independent.
 type Atom struct {
 	ID    int    `json:"id"`
-	Row   int    `json:"row"`   // index into AtomTable
-	Prop  string `json:"prop"`  // local name, e.g. "p3"
+	Row   int    `json:"row"`  // index into AtomTable
+	Prop  string `json:"prop"` // local name, e.g. "p3"
 	Prop2 string `json:"prop2,omitempty"`
-	Pol   int    `json:"pol"`   // polarity bits, filled by MarkPolarity
+	Pol   int    `json:"pol"` // polarity bits, filled by MarkPolarity
 }
 
 func (a *Atom) R() AtomRow { return AtomTable[a.Row] }
@@ -216,8 +216,16 @@ type C struct {
 
 // PCEntry is one key of a propertyConstraints map.
 type PCEntry struct {
-	Prop string `json:"prop"` // local name of the property (literal prop of the atoms, or edge)
-	Cs   []C    `json:"cs"`
+	Prop  string   `json:"prop"`          // local name of the property (literal prop of the atoms, or edge)
+	Key   string   `json:"key,omitempty"` // when set: the raw propertyConstraints key (a path expression) instead of ex.<Prop>
+	Cs    []C      `json:"cs"`
+	Extra []ExtraC `json:"extra,omitempty"` // further constraints printed verbatim (not evaluated by the reference model)
+}
+
+// ExtraC is a constraint outside the witness table (e.g. uniqueValues), used where only compilation matters.
+type ExtraC struct {
+	Kind string `json:"kind"`
+	Arg  *Y     `json:"arg"`
 }
 
 // F is a formula.
@@ -227,10 +235,10 @@ type F struct {
 	PC  []PCEntry `json:"pc,omitempty"`
 }
 
-func And(fs ...*F) *F { return &F{Op: "and", Sub: fs} }
-func Or(fs ...*F) *F  { return &F{Op: "or", Sub: fs} }
-func Not(f *F) *F     { return &F{Op: "not", Sub: []*F{f}} }
-func If(c, t *F) *F   { return &F{Op: "if", Sub: []*F{c, t}} }
+func And(fs ...*F) *F      { return &F{Op: "and", Sub: fs} }
+func Or(fs ...*F) *F       { return &F{Op: "or", Sub: fs} }
+func Not(f *F) *F          { return &F{Op: "not", Sub: []*F{f}} }
+func If(c, t *F) *F        { return &F{Op: "if", Sub: []*F{c, t}} }
 func IfElse(c, t, e *F) *F { return &F{Op: "if", Sub: []*F{c, t, e}} }
 func AtomF(a *Atom) *F {
 	return &F{Op: "pc", PC: []PCEntry{{Prop: a.Prop, Cs: []C{{Kind: "atom", Atom: a}}}}}
@@ -248,7 +256,7 @@ func (f *F) Clone() *F {
 		c.Sub = append(c.Sub, s.Clone())
 	}
 	for _, e := range f.PC {
-		ne := PCEntry{Prop: e.Prop}
+		ne := PCEntry{Prop: e.Prop, Key: e.Key, Extra: e.Extra}
 		for _, cc := range e.Cs {
 			ne.Cs = append(ne.Cs, C{Kind: cc.Kind, Atom: cc.Atom, N: cc.N, Body: cc.Body.Clone()})
 		}
@@ -357,7 +365,7 @@ func (f *F) MarkPolarity(pol int) {
 
 // Stats describes the shape of a formula (for labels).
 type FStats struct {
-	Connectives, Quantifiers, Atoms, Depth int
+	Connectives, Quantifiers, Atoms, Depth                         int
 	NotOverIte, OrOverConj, NestedUnderNot, CountGt1UnderNeg, Wide bool
 }
 
@@ -520,10 +528,17 @@ func (f *F) ToY() *Y {
 	case "pc":
 		pc := YMap()
 		for _, e := range f.PC {
-			cm := pc.Get("ex." + e.Prop)
+			key := "ex." + e.Prop
+			if e.Key != "" {
+				key = e.Key
+			}
+			cm := pc.Get(key)
 			if cm == nil {
 				cm = YMap()
-				pc.Set("ex."+e.Prop, cm)
+				pc.Set(key, cm)
+			}
+			for _, x := range e.Extra {
+				cm.Set(x.Kind, x.Arg.Clone())
 			}
 			for _, c := range e.Cs {
 				switch c.Kind {
